@@ -87,7 +87,7 @@ class Gen:
             leafs.append(("bvalue", 5))
         inner = []
         if d > 0:
-            inner = [("cast", 5), ("and", 3), ("or", 3), ("shl", 4), ("ite", 2), ("let", 1), ("boolcast", 1)]
+            inner = [("cast", 5), ("and", 3), ("or", 3), ("xor", 2), ("shl", 4), ("ite", 2), ("let", 1), ("boolcast", 1)]
             if not is_signed(ty):
                 inner += [("shr", 4), ("not", 2), ("add", 2), ("sub", 3), ("mul", 1)]
                 if ty != "usize":
@@ -113,8 +113,8 @@ class Gen:
         if kind == "boolcast":
             c, sc = self.bool(d - 1)
             return "(%s as %s)" % (c, ty), "(cast %s %s)" % (sc, ty)
-        if kind in ("and", "or", "add", "sub", "mul"):
-            op = {"and": "&", "or": "|", "add": "+", "sub": "-", "mul": "*"}[kind]
+        if kind in ("and", "or", "xor", "add", "sub", "mul"):
+            op = {"and": "&", "or": "|", "xor": "^", "add": "+", "sub": "-", "mul": "*"}[kind]
             x, sx = self.int(ty, d - 1)
             if r.random() < 0.3 and not is_signed(ty):
                 y, sy = self.lit(ty, allow_unsuffixed=True)
@@ -185,6 +185,8 @@ class Gen:
             if r.random() < 0.4 and not is_signed(ty):
                 return "(%s != 0)" % x, "(bin != %s (lit _ 0))" % sx
             y, sy = self.int(ty, d)
+            if r.random() < 0.35:
+                return "(%s == %s)" % (x, y), "(bin == %s %s)" % (sx, sy)
             return "(%s != %s)" % (x, y), "(bin != %s %s)" % (sx, sy)
         y, sy = self.int(ty, d)
         return "(%s < %s)" % (x, y), "(bin < %s %s)" % (sx, sy)
